@@ -44,7 +44,15 @@ def expand_hl(s):
 
 
 
-def attribute(cin, items):
+def line_passes(events):
+    """pass index in which each complete input line of a client was read to its end (that is the pass that parses it)"""
+    out = []
+    for (pi, kind, b) in events:
+        if kind == 'in': out += [pi] * b.count(b'\n')
+    return out
+
+
+def attribute(cin, items, with_index=False):
     """pair the complete input lines of one client with the reply lines they caused.
     A 208 answers the next unread input line on the spot; any other line belongs to the command in progress, which
     is the next unread input line when none is in progress; a terminal line (other than 208) ends the command.
@@ -56,17 +64,17 @@ def attribute(cin, items):
         if it[1] == 208:
             if cur is None:          # a command is in progress that has produced no line yet: the next unread line
                 if k >= len(lines): break
-                cur = (lines[k], []); k += 1
-            if k < len(lines): out.append((lines[k], [it], True)); k += 1
+                cur = (lines[k], [], k); k += 1
+            if k < len(lines): out.append((lines[k], [it], True, k)); k += 1
             continue
         if cur is None:
             if k >= len(lines): break
-            cur = (lines[k], []); k += 1
+            cur = (lines[k], [], k); k += 1
         cur[1].append(it)
         if 100 <= it[1] < 300:
-            out.append((cur[0], cur[1], True)); cur = None
-    if cur is not None: out.append((cur[0], cur[1], False))
-    return out
+            out.append((cur[0], cur[1], True, cur[2])); cur = None
+    if cur is not None: out.append((cur[0], cur[1], False, cur[2]))
+    return out if with_index else [x[:3] for x in out]
 
 
 def parse_req(ln):
@@ -366,6 +374,73 @@ def p_c03_justified(tr, V, st):
                     V.append(dict(sig='C03 state shown that the device did not report during this query', start=r['start'], end=r['end'], node=repr(node), state=state))
 
 
+def memstr(b):
+    """dbg_memstr"""
+    out = b''
+    for c in b:
+        if c == 13: out += b'\\r'
+        elif c == 10: out += b'\\n'
+        elif c == 9: out += b'\\t'
+        elif 32 <= c < 127: out += bytes([c])
+        else: out += b'\\%03o' % c
+    return out
+
+
+def p_c11_tele(tr, V, st):
+    """a telemetry line `305 recv(dN): '...'` shows bytes device N sent on its current connection and nothing else (no text of
+    another device, connection or client): its payload is the escaped form of a piece of that connection's decoded stream"""
+    state = {}; stream = {}; fdof = {}; total = {}; written = collections.defaultdict(bytes)
+    for p in tr:
+        if p.teardown or p.died: break
+        cand = {}
+        for di, d in p.devs.items():
+            # the stream of the connection this pass started with (a time-out disconnects within the pass)
+            fd0 = fdof.get(di)
+            s0 = stream.get(di, b'')
+            if fd0 is not None:
+                n = p.reads.get(fd0, 0)
+                if n and n > 0:
+                    data = p.delivered.get(fd0, {}).get('data', b'')[:n]
+                    if di == 0: state[di], kept = telnet_decode(state.get(di, 0), data)
+                    else: kept = data
+                    s0 += kept
+            cand[di] = s0
+            fd = d.get('fd', -1)
+            if d.get('conn') != 2:
+                stream.pop(di, None); state.pop(di, None); fdof[di] = None
+            elif fd0 != fd:
+                stream[di] = b''; state[di] = 0; fdof[di] = fd
+            else:
+                stream[di] = s0
+        for fd, w in p.writes.items():
+            if fd < 2000: written[fd] += w['data']
+        for fd, c in p.clients.items():
+            t = written[fd] + c['to']
+            new = t[len(total.get(fd, b'')):] if t.startswith(total.get(fd, b'')) else b''
+            total[fd] = t
+            for ln in new.split(b'\r\n'):
+                m = re.match(rb"^305 recv\(d(\d)\): '(.*)'$", ln, re.S)
+                if not m: continue
+                di = int(m.group(1)); st['C11 telemetry lines checked against the device stream'] += 1
+                c0 = cand.get(di, b'')
+                if m.group(2) not in memstr(c0) and m.group(2) not in memstr(c0.replace(b'\0', b'\xff')):    # `_getregex_buf` shows NUL as \377
+                    V.append(dict(sig='C11 telemetry line shows text its device did not send on this connection', at=p.i, fd=fd, dev=di, line=repr(ln[:160]), stream_tail=repr(cand.get(di, b'')[-80:])))
+
+
+def p_c11_events(tr, V, st):
+    """readiness reported for one descriptor is never acted on for another: in every pass the daemon reads only from descriptors
+    the poll of that very pass reported readable (a stale or foreign event would make it read - and, on EAGAIN, drop - an
+    unrelated session)"""
+    for p in tr:
+        if p.teardown or p.died: break
+        if not p.op.startswith('P'): continue
+        for fd in p.reads:
+            st['C11 reads checked against the poll result'] += 1
+            d = p.delivered.get(fd)
+            if d is None or not (d['rev'] & (1 | 4 | 8 | 16)):     # readable, hang-up, error, invalid: anything but 'writable' alone
+                V.append(dict(sig='C11 descriptor read although poll did not report it readable in this pass', at=p.i, fd=fd, polled=repr(d)[:80]))
+
+
 def p_c11(tr, V, st):
     """lines delivered to a client concern its own request: 303/309 node names and 302 lists within its target set,
     305 only with telemetry on; 208 only while a command is pending"""
@@ -539,17 +614,19 @@ def _repo():
 
 
 
-def align(mine, replies, com_of):
+def align(mine, replies, com_of, when=None):
     """pair the observed request windows of one client with its attributed replies: both are in order, but a request that was
-    installed and finished within one pass has no window, so match on (command, target set) and skip what does not fit"""
+    installed and finished within one pass has no window, so match on (command, target set) and skip what does not fit.
+    `when` (one entry per reply: the pass that read the request line to its end, which is the pass that installs it) pins the
+    window: without it an argument-less `temp` followed by the same query spelled out is paired with the wrong window."""
     out = []; k = 0
-    for rep in replies:
+    for ri, rep in enumerate(replies):
         rq = rep[0]
         if rq is None: continue
         verb, targets, line = rq
         com = com_of(verb)
         j = k
-        while j < len(mine) and not (mine[j]['com'] == com and set(mine[j]['names']) == set(targets)): j += 1
+        while j < len(mine) and not (mine[j]['com'] == com and set(mine[j]['names']) == set(targets) and (when is None or when[ri] is None or mine[j]['start'] == when[ri])): j += 1
         if j < len(mine):
             out.append((mine[j], rep)); k = j + 1
     return out
@@ -571,13 +648,14 @@ def p_c02_wire(tr, V, st):
     for fd, v in cv.items():
         items, _ = split_out(v.cout + lastto.get(fd, b''))
         replies = []
-        for ln, g, complete in attribute(v.cin, items):
+        lp = line_passes(v.events); when = []
+        for ln, g, complete, li in attribute(v.cin, items, with_index=True):
             rq = parse_req(ln)
             # every installed command ends in one of these four codes: keep a place-holder for lines this parser does not read
             # (argument-less `status` / `temp` / `beacon`) so that requests and replies stay aligned
-            if complete and g and g[-1][1] in (102, 210, 103, 211): replies.append((rq, g[-1][1]))
+            if complete and g and g[-1][1] in (102, 210, 103, 211): replies.append((rq, g[-1][1])); when.append(lp[li] if li < len(lp) else None)
         mine = [r for r in reqs if r['fd'] == fd]
-        for r, (rq, code) in align(mine, replies, lambda v: VERB2COM.get(v)):
+        for r, (rq, code) in align(mine, replies, lambda v: VERB2COM.get(v), when):
             verb, targets, line = rq
             if code != 102: continue
             st['C02 successful power requests checked on the wire'] += 1
@@ -678,11 +756,12 @@ def p_m_c02(world):
         for fd, v in cv.items():
             items, _ = split_out(v.cout + lastto.get(fd, b''))
             replies = []
-            for ln, g, complete in attribute(v.cin, items):
+            lp = line_passes(v.events); when = []
+            for ln, g, complete, li in attribute(v.cin, items, with_index=True):
                 rq = parse_req(ln)
-                if complete and g and g[-1][1] in (102, 210, 103, 211): replies.append((rq, g[-1][1], g))
+                if complete and g and g[-1][1] in (102, 210, 103, 211): replies.append((rq, g[-1][1], g)); when.append(lp[li] if li < len(lp) else None)
             mine = [r for r in reqs if r['fd'] == fd]
-            for r, (rq, code, g) in align(mine, replies, lambda v: VERB2COM.get(v, {b'status': 2, b'temp': 19, b'beacon': 21}.get(v))):
+            for r, (rq, code, g) in align(mine, replies, lambda v: VERB2COM.get(v, {b'status': 2, b'temp': 19, b'beacon': 21}.get(v)), when):
                 verb, targets, line = rq
                 if r['com'] in daemon.QUERY_BASE:
                     # C03 justification: a node shown on/off (or with a value) was answered so by its device within the window
@@ -847,3 +926,46 @@ def p_f23(tr, V, st):
             if fd < 2000 and w.get('blocks'):
                 V.append(dict(sig='blocking write after client quit', at=p.i, fd=fd, bytes=len(w['data'])))
                 return
+
+
+def p_c04_deadline(tr, V, st, timeout_us=5000000):
+    """bounded time.  The harness-only identity line gives, for each queued action, its identity and the start of its deadline
+    (0 = not started).  Checked against the observed clock: the start, once set, is the time of the pass in which it first shows
+    and never moves; an action seen at the head of its queue in two consecutive passes has started; an action at the head has
+    not outlived start + device time-out; the time-out handed to the next poll is never later than a head's deadline; and a head
+    whose deadline has not started leaves no client action waiting behind it."""
+    seen = {}                                   # (device, identity) -> deadline start first reported
+    prevhead = {}
+    for p in tr:
+        if p.teardown or p.died: break
+        for di, d in p.devs.items():
+            D, I = d.get('queue'), d.get('ids')
+            if D is None or I is None or len(D) != len(I): continue
+            for (ident, ts) in I:
+                k = (di, ident)
+                if ts is not None:
+                    if k not in seen:
+                        seen[k] = ts
+                        if ts != p.now:
+                            V.append(dict(sig='C04 deadline of an action starts at a time other than the pass that started it', at=p.i, dev=di, start=ts, now=p.now))
+                    elif seen[k] != ts:
+                        V.append(dict(sig='C04 deadline start of a queued action moved', at=p.i, dev=di, was=seen[k], start=ts, now=p.now))
+                        seen[k] = ts
+                elif k in seen:
+                    V.append(dict(sig='C04 deadline start of a queued action moved', at=p.i, dev=di, was=seen[k], start=None, now=p.now))
+                    del seen[k]
+            if not I:
+                prevhead.pop(di, None); continue
+            ident, ts = I[0]
+            if ts is None:
+                if prevhead.get(di) == ident:
+                    V.append(dict(sig='C04 action at the head of its queue for two passes has no deadline', at=p.i, dev=di, action=list(D[0])))
+                elif any(c != 0 for (_, c) in D):
+                    V.append(dict(sig='C04 client action waits behind a head action without a deadline', at=p.i, dev=di, queue=[list(x) for x in D]))
+            else:
+                st['C04 head deadlines checked'] += 1
+                if p.now >= ts + timeout_us:
+                    V.append(dict(sig='C04 action outlived its deadline at the head of its device queue', at=p.i, dev=di, action=list(D[0]), started=ts, now=p.now))
+                elif p.tmo is None or p.tmo > ts + timeout_us - p.now:
+                    V.append(dict(sig='C04 time-out registered for poll is later than a head action deadline', at=p.i, dev=di, tmo=p.tmo, deadline_in=ts + timeout_us - p.now))
+            prevhead[di] = ident
